@@ -53,10 +53,9 @@ def reset_globals():
 
 
 def leaf_signs(e):
-    """set of sf flags found on the operand itself and on every register / constant leaf below it."""
+    """set of sf flags found on the operand and on EVERY node below it (inner nodes hand their flag to the
+    constants they evaluate to, so they are part of the declaration)."""
     out = set()
-    if isinstance(e, exp):
-        out.add(bool(e.sf))
     seen = set()
     todo = [e]
     while todo:
@@ -64,8 +63,7 @@ def leaf_signs(e):
         if not isinstance(x, exp) or id(x) in seen:
             continue
         seen.add(id(x))
-        if isinstance(x, (cst, reg)):
-            out.add(bool(x.sf))
+        out.add(bool(x.sf))
         todo.extend(children(x))
     return frozenset(out)
 
@@ -74,7 +72,7 @@ def build(script, decl=None):
     """execute the script; returns the single resulting expression.
     decl (list) receives, per binary instruction index, (k, l.sf, r.sf, signs) observed on the operand
     objects just before the operator is applied (= what the user declared): `signs` is the set of sf flags
-    of the two operands and of all register/constant leaves below them — the declaration is unambiguous
+    of the two operands and of all nodes below them — the declaration is unambiguous
     iff that set has one element."""
     st = []
     for k, ins in enumerate(script):
